@@ -185,11 +185,11 @@ RefreshEnd(f, r) ==
     /\ UNCHANGED <<lazy, now, serial, handles, dump, dumpOf, lastq, nops>>
 
 Tick(d) ==
-    /\ "tick" \in OpKinds /\ now + d <= MaxNow
-    /\ now' = now + d
+    /\ "tick" \in OpKinds /\ now + d <= MaxNow /\ nops < MaxOps
+    /\ now' = now + d /\ nops' = nops + 1
     /\ obs' = Ack("tick")
     /\ H([a |-> "Tick", d |-> d])
-    /\ UNCHANGED <<lazy, cache, serial, inflight, handles, dump, dumpOf, mirror, lastq, nops>>
+    /\ UNCHANGED <<lazy, cache, serial, inflight, handles, dump, dumpOf, mirror, lastq>>
 
 ------------------------------------------------------------------------------
 \* dump / load (C19)
